@@ -136,6 +136,8 @@ def description_for(case, extra_cc=None):
         swp['Q1'] = case['QI']
         swp['Q2'] = case['QI']
     lp = dict(dt=case['dt'], restol=case['restol'], residual_type=case['residual_type'], nsweeps=case['nsweeps'] if nlev > 1 else case['nsweeps'][0])
+    if case.get('e_tol'):
+        lp['e_tol'] = case['e_tol']  # increment-based stopping (adds the embedded-error estimator and its level status variables)
     desc = dict(problem_class=pc, problem_params=pp, sweeper_class=sw, sweeper_params=swp, level_params=lp, step_params=dict(maxiter=case['maxiter']))
     if nlev > 1:
         if case['space_coarsen']:
